@@ -347,3 +347,33 @@ META = {
         "technique": "Go race detector over barrier-released concurrent Checks on fresh shared generators; differential draw-log monitor against solo runs",
     },
 }
+
+# families added after the fourth wave of seeded changes (DESIGN.md 10.9); appended to the rule texts above
+_MORE = {
+    "C02": "Since the fourth wave the cleanup variants cover every failure kind (raw panics and runtime errors too): a cleanup that skips "
+           "after / before the falsifying cleanup, a skip in a cleanup of the Custom function that panicked, and the callback that registered "
+           "the falsifying cleanup ending by Skip itself (body-skip).",
+    "C03": "A family 'unsat' drives generators whose contract no bitstream can meet (empty regexp classes, a\\bb, 3 distinct bools, "
+           "Filter(false), Custom that always skips): every draw must end as invalid data. Recursive trees whose children are distinct by key "
+           "re-enter ONE SliceOfNDistinct object; RuneFrom is also given user tables that differ only in Stride.",
+    "C05": "One program in six has a state machine in which EVERY action has a failure site of its own reached through Fatal/Fatalf/FailNow "
+           "with different densities.",
+    "C07": "Half of the re-runs of the printed seed add -rapid.v.",
+    "C08": "Invariants may fail (data dependent) on the initial state, and may skip (which makes the whole test case invalid: no event may follow).",
+    "C09": "Skip patterns include a Skip from the invariant of a state machine after some action has drawn a value.",
+    "C10": "A third of the Checks run on a TB that offers a Context of its own (as *testing.T since Go 1.24).",
+    "C11": "Behaviours include failures without a message followed by a skip or raised by a cleanup, and a non-fatal failure in a case "
+           "whose body and cleanup both skip / whose cleanups fail and skip in either order.",
+    "C14": "Workers of the late-cleanup family occasionally signal their failure only after the context was cancelled (while cleanup "
+           "functions run); a quarter of the scenarios run the whole script on the T of a Custom generator function; a third of the Checks "
+           "use a TB with a Context of its own. Race reports are attributed by access side: a report both of whose accesses lie in harness "
+           "callbacks is a monitor bug (exit 2), never a verdict.",
+    "C15": "In a seventh of the rounds a neighbouring check whose OWN Custom generator function signals non-fatal failures runs (and fails) "
+           "alongside the others, which must not notice.",
+    "C17": "Two shards start a child process with a real test deadline (-test.timeout=15s): with a stale fail file whose replay takes 3.5 s "
+           "the same 100 random test cases must run as without it. A truncated file given with -rapid.failfile that still parses and still "
+           "fails is a usable fail file and is judged as one.",
+    "C18": "Within every fresh run no two test cases may be identical (fingerprint: a permutation of 24 elements).",
+}
+for _k, _v in _MORE.items():
+    META[_k]["rule"] += " " + _v
